@@ -36,6 +36,7 @@ class Trace:
         self.ops = []             # (time, op, note)
         self.wakeups = []         # times of reconnect_soon / description updates
         self.triggers = []        # times of explicit triggers (requests, subscribe, description update)
+        self.strong_triggers = []  # triggers that must (re)start connecting: requests and discovery updates (a subscribe in polling fallback does not)
         self.closes = []          # (time, kind, raised)
         self.callers = []         # dict(kind, start, end, outcome, timeout)
         self.obs = []             # observations after every op: dict(time, held, acc_open, connected, connector_alive, ...)
@@ -223,6 +224,7 @@ class ReconWorld:
             rec = {"kind": kind, "start": t0, "end": None, "outcome": None}
             tr.callers.append(rec)
             tr.triggers.append(t0)
+            tr.strong_triggers.append(t0)
 
             async def caller():
                 try:
@@ -276,6 +278,7 @@ class ReconWorld:
             self.state_num += 1
             tr.wakeups.append(t0)
             tr.triggers.append(t0)
+            tr.strong_triggers.append(t0)
             tr.advertised.append((t0, list(hosts)))
             try:
                 p._async_description_update(description(hosts, self.port, self.state_num))
